@@ -1,4 +1,5 @@
 import NutilsVerif.Model.C14
+import NutilsVerif.Model.C14Cache
 open NutilsVerif NutilsVerif.Proto NutilsVerif.C14
 
 /-!
@@ -13,6 +14,10 @@ Driver for C14.  Numbers are `p` or `p/q` (exact rationals; Python floats are se
   droptol|A|ncols|d
   decon|n|a|cons
   ls|failrelax|relax0|<scale:acc ...>
+  hist|A|nrows|ncols|<step>&<step>&...      one Matrix object, its sub-block cache threaded through the steps
+        step = S,<rhs 0/1>,<lhs0 0/1>,<cons>,<rcons>   (Matrix.solve; only the masks handed to `submatrix` matter)
+             | X,<rows mask>,<cols mask>               (Matrix.submatrix)
+        answer: per step `nocall` | `self` | `hit:<block>` | `miss:<block>`, joined by `&`
 -/
 
 def parseRat (s : String) : Option Rat :=
@@ -120,6 +125,38 @@ def parseLs (s : String) : Option (List (Rat × Bool)) :=
     | [a, "0"] => (parseRat a).map (·, false)
     | _ => none
 
+def showMat (m : Mat) : String := ";".intercalate (m.map showVec)
+
+def showHow (r : SubHow × Mat) : String :=
+  match r.1 with
+  | .self => "self"
+  | .hit => s!"hit:{showMat r.2}"
+  | .miss => s!"miss:{showMat r.2}"
+
+def parseFlag (s : String) : Option Bool :=
+  if s == "1" then some true else if s == "0" then some false else none
+
+/-- the masks a history step hands to `submatrix` (`none` inside: no call) -/
+def parseHStep (A : Mat) (nr nc : Nat) (s : String) : Option (Option (List Bool × List Bool)) :=
+  match (s.splitOn ",").map (fun w => w.trimAscii.toString) with
+  | ["S", rhs, lhs0, cons, rcons] =>
+    match parseFlag rhs, parseFlag lhs0, parseOpt parseCons cons, parseOpt parseMask rcons with
+    | some rhs, some lhs0, some cons, some rcons =>
+      let si : SolveIn := ⟨A, nr, nc, if rhs then some (zeros nr) else none, if lhs0 then some (zeros nc) else none,
+                          cons, rcons, .fin 0, .fin 0, .matrixError⟩
+      some (solveSel si)
+    | _, _, _, _ => none
+  | ["X", rows, cols] =>
+    match parseMask rows, parseMask cols with
+    | some rows, some cols => if rows.length == nr && cols.length == nc then some (some (rows, cols)) else none
+    | _, _ => none
+  | _ => none
+
+def runHist (A : Mat) : Option SubCache → List (Option (List Bool × List Bool)) → List String
+  | _, [] => []
+  | st, none :: rest => "nocall" :: runHist A st rest
+  | st, some (I, J) :: rest => showHow (submatrixM A st I J).2 :: runHist A (submatrixM A st I J).1 rest
+
 def handle (line : String) : String :=
   match fields line with
   | ["solver", mode, A, nc, b, atol, rtol, sol] =>
@@ -174,6 +211,14 @@ def handle (line : String) : String :=
     | some n, some a, some cons =>
       let r := deconstruct n a cons
       s!"{showOptVec r.1}|{showVec r.2}|{showVec (construct r.1 r.2)}|{showVec (expected n a cons)}"
+    | _, _, _ => "bad-request"
+  | ["hist", A, nr, nc, steps] =>
+    match parseMat A, nr.toNat?, nc.toNat? with
+    | some A, some nr, some nc =>
+      if A.length != nr || A.any (fun row => row.length != nc) then "bad-request shape"
+      else match (steps.splitOn "&").mapM (parseHStep A nr nc) with
+        | some sels => "&".intercalate (runHist A none sels)
+        | none => "bad-request step"
     | _, _, _ => "bad-request"
   | ["ls", fr, r0, script] =>
     match parseRat fr, parseRat r0, parseLs script with
